@@ -92,6 +92,9 @@ structure St where
   traces : List String := []
   /-- how many times each thunk's computation was started -/
   runs : Array Nat := #[]
+  /-- ghost flag: `set_done`'s `assert!(matches!(*state, InProgress))` failed (never, see
+      `C01_eval_set_done_assertion_never_fails`) -/
+  tripped : Bool := false
 
 /-- Evaluation monad: `none` (the bottom of the flat order on `Option`) means
     "not enough fuel"; errors and results carry the store. -/
@@ -157,7 +160,9 @@ def finishThunk (t : TId) (v : Value) : M Unit := do
   let st ← get
   match st.thunks[t]? with
   | some (.inProgress _) => set { st with thunks := st.thunks.setIfInBounds t (.done v) }
-  | _ => throw (.internal "set_done on a thunk that is not in progress")
+  | _ =>
+    set { st with tripped := true }
+    throw (.internal "set_done on a thunk that is not in progress")
 
 def getEnv (e : EId) : M Env := do
   match (← get).envs[e]? with
@@ -809,6 +814,24 @@ def builtinCall (b : Builtin) (ts : List TId) (d1 : Nat) : M Value :=
   | .makeArray, [t0, t1] => std_makeArray rec t0 t1 d1
   | _, _ => throw (.internal "builtin arity")
 
+/-- the computation of a pending thunk (`State::DoThunk` on `ThunkState::Pending`) -/
+def thunkBody (p : Pending) (d : Nat) : M Value :=
+  match p with
+  | .expr e env => rec (.eval e env false d)
+  | .plus e field env => do
+    let r ← getObjRef env
+    match ← fieldThunk r.obj (r.layer + 1) field with
+    | some st =>
+      let sv ← wantThunk cfg rec st d
+      let v ← rec (.eval e env false d)
+      binaryOp cfg rec .add sv v d false
+    | none => rec (.eval e env false d)
+  | .call f args => do
+    let fn ← getFunc f
+    let argThunks ← bindThunkArgs fn args
+    let inner ← newEnv (some fn.env) ((fn.params.map Prod.fst).zip argThunks)
+    rec (.eval fn.body inner true d)
+
 /-- `CompareArray`: element-wise, stops at the first non-equal pair. -/
 def compareLists (d : Nat) : List TId → List TId → M Value
   | [], [] => pure (.num 0.0)
@@ -829,21 +852,7 @@ def step : Task → M Value
     | .done v => pure v
     | .inProgress _ => throw .infiniteRecursion
     | .pending p =>
-      let v ← match p with
-        | .expr e env => rec (.eval e env false d)
-        | .plus e field env => do
-          let r ← getObjRef env
-          match ← fieldThunk r.obj (r.layer + 1) field with
-          | some st =>
-            let sv ← wantThunk cfg rec st d
-            let v ← rec (.eval e env false d)
-            binaryOp cfg rec .add sv v d false
-          | none => rec (.eval e env false d)
-        | .call f args => do
-          let fn ← getFunc f
-          let argThunks ← bindThunkArgs fn args
-          let inner ← newEnv (some fn.env) ((fn.params.map Prod.fst).zip argThunks)
-          rec (.eval fn.body inner true d)
+      let v ← thunkBody cfg rec p d
       finishThunk t v
       pure v
   | .asserts o d => do
